@@ -116,7 +116,7 @@ func OpenDir(baseDir string) (*Bundle, error) {
 			ret.registryPackageVersionDeprecations[pkgAddr] = deprecations
 		}
 		for versionStr, mv := range rpm.Versions {
-			version, err := versions.ParseVersion(versionStr)
+			version, err := parseManifestVersion(versionStr)
 			if err != nil {
 				return nil, fmt.Errorf("invalid registry package version %q: %w", versionStr, err)
 			}
@@ -130,6 +130,19 @@ func OpenDir(baseDir string) (*Bundle, error) {
 	}
 
 	return ret, nil
+}
+
+// parseManifestVersion is versions.ParseVersion, except that a version whose
+// numeric components do not fit the parser's integer type is reported as an
+// error: the underlying library panics on those instead, and a manifest is
+// untrusted input.
+func parseManifestVersion(s string) (v versions.Version, err error) {
+	defer func() {
+		if r := recover(); r != nil {
+			v, err = versions.Unspecified, fmt.Errorf("%v", r)
+		}
+	}()
+	return versions.ParseVersion(s)
 }
 
 // LocalPathForSource takes either a remote or registry final source address
